@@ -96,6 +96,13 @@ def make_subject(kind, seed):
         C[:, 0] = 1.0
         return BasisFunctionalData(b, C)
 
+    if kind.startswith("dense1d:"):
+        # size-threshold subjects `dense1d:<n_obs>x<n_points>` (fast paths that switch on above a size)
+        n, m = (int(x) for x in kind.split(":")[1].split("x"))
+        return dense1(n, m)
+    if kind.startswith("multivariate:"):
+        n, m = (int(x) for x in kind.split(":")[1].split("x"))
+        return MultivariateFunctionalData([dense1(n, m), dense1(n, m + 1)])
     if kind == "dense1d":
         return dense1(5, (6, 7, 9)[seed % 3])
     if kind == "dense2d":
@@ -233,7 +240,11 @@ def _class_of(kind):
     import FDApy.representation.functional_data as fd
 
     return {"dense1d": fd.DenseFunctionalData, "dense2d": fd.DenseFunctionalData, "irregular": fd.IrregularFunctionalData,
-            "basis": fd.BasisFunctionalData, "multivariate": fd.MultivariateFunctionalData}[kind]
+            "basis": fd.BasisFunctionalData, "multivariate": fd.MultivariateFunctionalData}[kind.split(":")[0]]
+
+
+SIZE_THRESHOLDS = {"quick": [129, 257, 385, 513], "thorough": [33, 65, 129, 201, 257, 385, 513, 1025]}
+SIZED_METHODS = ["mean", "center", "covariance", "inner_product", "norm", "normalize", "standardize", "rescale", "noise_variance"]
 
 
 def enumerate_calls():
@@ -331,6 +342,13 @@ def gen_cases(rng: Rng, tier):
     for (kind, m, oi) in calls:
         for s in seeds[: (1 if tier == "quick" else 3)]:
             yield dict(kind="single", subject=kind, seed=s, method=m, opt=oi)
+    # size thresholds: a wide (many sampling points) and a tall (many curves) dataset per size, default options
+    for S in SIZE_THRESHOLDS[tier]:
+        for kind in (f"dense1d:3x{S}", f"dense1d:{S}x5"):
+            for m in SIZED_METHODS:
+                if m == "covariance" and S > 600:
+                    continue
+                yield dict(kind="single", subject=kind, seed=seeds[0], method=m, opt=0)
     # pairs of consecutive calls
     by_kind = {}
     for c in calls:
@@ -351,6 +369,13 @@ def gen_estimator_cases(rng: Rng, tier):
         for est in ("ufpca_cov", "ufpca_inpro", "ufpca_2d", "ufpca_cov_big", "ufpca_inpro_big", "ufpca_pace", "ufpca_pace_irregular",
                     "ufpca_cov_norm", "ufpca_inpro_norm", "mfpca_cov_norm", "mfpca_inpro_norm", "mfpca_cov", "mfpca_inpro", "mfpca_pace", "fcptpa", "psplines1", "psplines2", "localpoly"):
             yield dict(kind="est", est=est, seed=seed)
+    # size thresholds for the fits (eigen-solvers and blocked loops may switch algorithm above a size)
+    seed = rng.randint(0, 10**6)
+    for S in SIZE_THRESHOLDS[tier]:
+        for est in ("ufpca_cov", "ufpca_inpro", "mfpca_inpro"):
+            if S > 600 and est == "ufpca_cov" and tier == "quick":
+                continue
+            yield dict(kind="est", est=f"{est}@{S}", seed=seed)
 
 
 def search_cases(rng, tier):
@@ -519,6 +544,28 @@ def _est_setup(est, seed):
     from FDApy.preprocessing.smoothing.psplines import PSplines
 
     rng = Rng(f"c16-est-{est}-{seed}")
+    if "@" in est:
+        base, S = est.split("@")
+        S = int(S)
+        if base == "ufpca_cov":      # many sampling points, few curves
+            data = make_subject(f"dense1d:4x{S}", seed)
+            mk = lambda: UFPCA(n_components=2, method="covariance")  # noqa: E731
+            steps = [("fit", lambda e, c: e.fit(c["data"])), ("transform", lambda e, c: e.transform(c["data"], method="NumInt")),
+                     ("inverse_transform", lambda e, c: e.inverse_transform(c["scores"]))]
+            return mk, dict(data=data), steps, "UFPCA"
+        if base == "ufpca_inpro":    # many curves, few sampling points
+            data = make_subject(f"dense1d:{S}x5", seed)
+            mk = lambda: UFPCA(n_components=2, method="inner-product")  # noqa: E731
+            steps = [("fit", lambda e, c: e.fit(c["data"])), ("transform", lambda e, c: e.transform(method="InnPro")),
+                     ("inverse_transform", lambda e, c: e.inverse_transform(c["scores"]))]
+            return mk, dict(data=data), steps, "UFPCA"
+        if base == "mfpca_inpro":
+            data = make_subject(f"multivariate:{S}x5", seed)
+            mk = lambda: MFPCA(n_components=2, method="inner-product")  # noqa: E731
+            steps = [("fit", lambda e, c: e.fit(c["data"], method_smoothing=None)), ("transform", lambda e, c: e.transform(method="InnPro")),
+                     ("inverse_transform", lambda e, c: e.inverse_transform(c["scores"]))]
+            return mk, dict(data=data), steps, "MFPCA"
+        raise ValueError(est)
 
     def richer(seed2):
         """another dense 1-D dataset: more curves on a finer grid (for refits on richer data)"""
@@ -911,7 +958,8 @@ def skeleton_of(case):
         return None
     if case.get("skeleton"):
         return case["skeleton"]
-    return SKELETONS.get((case["subject"], case["method"], case["opt"])) or SKELETONS.get((case["subject"], case["method"], None))
+    base = case["subject"].split(":")[0]
+    return SKELETONS.get((base, case["method"], case["opt"])) or SKELETONS.get((base, case["method"], None))
 
 
 def model_lines(case, impl):
@@ -983,7 +1031,9 @@ def classify(case, impl):
     if "__crash__" in impl:
         return tags + ["crash"]
     if case["kind"] == "single":
-        tags.append("subject:" + case["subject"])
+        tags.append("subject:" + case["subject"].split(":")[0])
+        if ":" in case["subject"]:
+            tags.append("size_threshold:" + case["subject"].split(":")[1])
         tags.append("status:" + impl["status"])
         tags.append("modelled" if skeleton_of(case) else "unmodelled:" + _entry(case["subject"], case["method"]))
     elif case["kind"] == "pair":
@@ -991,6 +1041,8 @@ def classify(case, impl):
         tags.append("pair_status:" + impl["status_a"].split(":")[0] + "/" + impl["status_b"].split(":")[0])
     else:
         tags.append("est:" + case["est"])
+        if "@" in case["est"]:
+            tags.append("size_threshold:" + case["est"].split("@")[1])
         for r in impl["recs"]:
             tags.append(f"est_step:{case['est']}.{r['step']}:{r['status']}")
     return tags
